@@ -109,6 +109,9 @@ var envDirCounter int
 // (repeats, other spellings); the set itself stays what it is.
 var p2CreatePaths func(dir string, paths []string) []string
 
+// p2CreateHook, if set, writes the set instead of par2.Create (same contract).
+var p2CreateHook func(idx string, paths []string, slice, blocks, g int) (error, *core.PanicInfo)
+
 // newP2Env materialises the set and runs the real par2.Create.
 func newP2Env(set scen.Set, base string, g int) (*p2env, error) {
 	root, err := os.MkdirTemp("", "p2-")
@@ -141,7 +144,14 @@ func newP2Env(set scen.Set, base string, g int) (*p2env, error) {
 		createPaths = p2CreatePaths(e.dir, e.paths)
 	}
 	var cerr error
-	if pi := core.Protect(func() {
+	if p2CreateHook != nil {
+		// the set is written through a history on one Encoder object
+		var hpi *core.PanicInfo
+		cerr, hpi = p2CreateHook(e.idx, createPaths, set.SliceSize, set.Blocks, g)
+		if hpi != nil {
+			return e, fmt.Errorf("Create panicked: %s [%s]", hpi.Msg, hpi.Frame)
+		}
+	} else if pi := core.Protect(func() {
 		cerr = par2.Create(e.idx, createPaths, par2.CreateOptions{SliceByteCount: set.SliceSize, NumParityShards: set.Blocks, NumGoroutines: g})
 	}); pi != nil {
 		return e, fmt.Errorf("Create panicked: %s [%s]", pi.Msg, pi.Frame)
